@@ -47,24 +47,24 @@ theorem Inv.len_zero_iff (h : Inv cmp s) : (s.len == 0) = true ↔ chain0 s = []
 
 /-! ### GetNode / Get / Head / node.Next -/
 
-theorem getNode_spec (cfg : Cfg K V) (hc : TotalCmp cfg.cmp) {s : SL K V} (h : Inv cfg.cmp s) (key : K) :
-    s.getNode cfg key = some (if key ∈ chain0 s then some key else none) := by
-  obtain ⟨ls, h1, h2, h3, _, _⟩ := h.search_prep key
+theorem getNode_spec (cfg : Cfg K V) (hc : WeakCmp cfg.cmp) {s : SL K V} (h : Inv cfg.cmp s) (key : K) :
+    s.getNode cfg key = some (findEq cfg.cmp key (chain0 s)) := by
+  obtain ⟨ls, h1, h2, h3, _, _⟩ := h.search_prep hc key
   unfold SL.getNode
   simp only [h1]
   rw [findLoop_spec hc key ls none h2 (fun l _ c hcn => by cases hcn), h3]
-  by_cases hk : key ∈ chain0 s <;> simp [hk]
 
-theorem get_spec (cfg : Cfg K V) (hc : TotalCmp cfg.cmp) {s : SL K V} (h : Inv cfg.cmp s) (key : K) :
-    s.get cfg key = some (match OMap.get (toMap s) key with
+theorem get_spec (cfg : Cfg K V) (hc : WeakCmp cfg.cmp) {s : SL K V} (h : Inv cfg.cmp s) (key : K) :
+    s.get cfg key = some (match OMap.getW cfg.cmp (toMap s) key with
       | some v => (v, true)
       | none => (cfg.zeroV, false)) := by
   unfold SL.get
-  rw [getNode_spec cfg hc h, toMap_eq, omap_get_filterMap]
-  by_cases hk : key ∈ chain0 s
-  · obtain ⟨v, hv⟩ := h.valOf_some hk
-    simp [hk, hv]
-  · simp [hk]
+  rw [getNode_spec cfg hc h, h.getW_toMap]
+  cases hf : findEq cfg.cmp key (chain0 s) with
+  | none => rfl
+  | some n =>
+    obtain ⟨v, hv⟩ := h.valOf_some (findEq_some hf).1
+    simp [hv]
 
 theorem head_spec {s : SL K V} (h : Inv cmp s) : s.head = some ((toMap s).head?.map Prod.fst) := by
   obtain ⟨rest, hr⟩ := h.lv_cons
@@ -79,7 +79,7 @@ theorem head_spec {s : SL K V} (h : Inv cmp s) : s.head = some ((toMap s).head?.
     simp only []
     rw [← hk]; cases toMap s <;> simp
 
-theorem nodeNext_spec (hc : TotalCmp cmp) {s : SL K V} (h : Inv cmp s) {n : K} (hn : n ∈ chain0 s) :
+theorem nodeNext_spec (hc : WeakCmp cmp) {s : SL K V} (h : Inv cmp s) {n : K} (hn : n ∈ chain0 s) :
     s.nodeNext n = some ((gt cmp n (chain0 s)).head?) := by
   obtain ⟨rest, hr⟩ := h.lv_cons
   unfold SL.nodeNext
@@ -237,12 +237,12 @@ theorem omap_from_toMap (s : SL K V) (start : K) :
   rw [toMap_eq, filter_filterMap_key (valOf_keyPres _) (fun x => !decide (cmp x start < 0))]
 
 /-- `RangeWithStart` (`end_ = none`) / `RangeWithRange` on an initialised list. -/
-theorem rangeFrom_spec (cfg : Cfg K V) (hc : TotalCmp cfg.cmp) {s : SL K V} (h : Inv cfg.cmp s)
+theorem rangeFrom_spec (cfg : Cfg K V) (hc : WeakCmp cfg.cmp) {s : SL K V} (h : Inv cfg.cmp s)
     (start : K) (end_ : Option K) (stop : Nat) :
     s.rangeFrom cfg start end_ stop =
       some (stopAfter stop (bounded cfg.cmp end_ (OMap.from cfg.cmp (toMap s) start))) := by
   obtain ⟨rest, hr⟩ := h.lv_cons
-  obtain ⟨ls, h1, h2, h3, _, h5⟩ := h.search_prep start
+  obtain ⟨ls, h1, h2, h3, _, h5⟩ := h.search_prep hc start
   have hs0 := h.sorted0
   rw [omap_from_toMap]
   unfold SL.rangeFrom
@@ -255,7 +255,8 @@ theorem rangeFrom_spec (cfg : Cfg K V) (hc : TotalCmp cfg.cmp) {s : SL K V} (h :
       have hf' : (cfg.fixed && cfg.lazy) = false := by simpa using hf
       simp only [hf', Bool.false_and, Bool.false_eq_true, if_false, h1]
       rw [startLoop_spec hc start ls none h2 (fun l _ c hcn => by cases hcn), h3, this]
-      simp only [List.not_mem_nil, decide_false, Bool.false_eq_true, if_false, h5]
+      have hfn : findEq cfg.cmp start [] = none := rfl
+      simp only [hfn, h5]
       rw [hr, this]
       simp [pred, lo, lastOr, after, rangeChain, Sink.new, Sink.out, ge]
       cases end_ <;> simp [bounded, stopAfter]
@@ -270,29 +271,32 @@ theorem rangeFrom_spec (cfg : Cfg K V) (hc : TotalCmp cfg.cmp) {s : SL K V} (h :
     have hout : sk'.out = stopAfter stop
         (bounded cfg.cmp end_ ((ge cfg.cmp start (chain0 s)).filterMap (valOf s.vals))) := by
       rw [hk2]; simp [Sink.new, Sink.out, cut_new]
-    by_cases hk : start ∈ chain0 s
-    · simp only [hk, decide_true, if_true]
+    cases hf : findEq cfg.cmp start (chain0 s) with
+    | some n =>
+      obtain ⟨hk, hnk⟩ := findEq_some hf
+      simp only []
       rw [hr]; simp only []
-      rw [ge_of_mem hc hs0 hk] at hk1
+      rw [ge_of_equiv hc hs0 hk hnk] at hk1
       unfold rangeChain at hk1
       obtain ⟨v, hv⟩ := h.valOf_some hk
       rw [hv] at hk1 ⊢
       simp only [] at hk1 ⊢
-      rw [afterNode_spec hc hs0 hk]
-      cases hcb : callBounded cfg.cmp end_ (Sink.new stop) start v with
+      rw [afterNode_spec hc hs0 hk, ← gt_congr hc hnk]
+      cases hcb : callBounded cfg.cmp end_ (Sink.new stop) n v with
       | mk sk go =>
         rw [hcb] at hk1
         cases go with
         | true => simp only [] at hk1 ⊢; rw [hk1, ← hout]; rfl
         | false => simp only [] at hk1 ⊢; cases hk1; rw [← hout]
-    · simp only [hk, decide_false, Bool.false_eq_true, if_false, h5]
+    | none =>
+      simp only [h5]
       rw [hr]; simp only []
       rw [(upto_after_pred hc start hs0).2]
       simp only []
       rw [hk1, ← hout]; rfl
 
 /-- On a sorted map, stopping at the first key `≥ end` yields exactly the keys in `[start, end)`. -/
-theorem takeWhile_eq_filter (hc : TotalCmp cmp) (e : K) :
+theorem takeWhile_eq_filter (hc : WeakCmp cmp) (e : K) :
     ∀ (m : List (K × V)), m.Pairwise (fun a b => cmp a.1 b.1 < 0) →
       m.takeWhile (fun p => decide (cmp p.1 e < 0)) = m.filter (fun p => decide (cmp p.1 e < 0)) := by
   intro m
@@ -309,7 +313,7 @@ theorem takeWhile_eq_filter (hc : TotalCmp cmp) (e : K) :
       simp only [decide_eq_true_eq]
       intro hlt; exact hx (hc.trans _ _ _ this hlt)
 
-theorem bounded_from_eq_between (hc : TotalCmp cmp) {s : SL K V} (h : Inv cmp s) (start e : K) :
+theorem bounded_from_eq_between (hc : WeakCmp cmp) {s : SL K V} (h : Inv cmp s) (start e : K) :
     bounded cmp (some e) (OMap.from cmp (toMap s) start) = OMap.between cmp (toMap s) start e := by
   unfold bounded OMap.from OMap.between
   simp only []
